@@ -770,7 +770,7 @@ class Engine:
             return z3.Function(f"in.{container.tag}", item.z.sort(), BOOL)(item.z)
         if isinstance(container, VOpaque) or isinstance(item, VOpaque):
             return fresh("in", BOOL)
-        if isinstance(container, VSeq) and is_const_int(container.ln) and container.ln.as_long() <= 8:
+        if isinstance(container, VSeq) and is_const_int(container.ln) and container.ln.as_long() <= 40:
             n = container.ln.as_long()
             if n == 0:
                 return z3.BoolVal(False)
@@ -1552,9 +1552,19 @@ class Engine:
                 yield s2, sig
 
     # ---- loops
-    def loop_spec(self):
-        idx = self.loop_counter
-        self.loop_counter += 1
+    def loop_spec(self, node=None):
+        # loops are numbered in order of first encounter of their AST node (a loop reached on several paths keeps its number)
+        if node is not None:
+            if not hasattr(self, "_loop_ids"):
+                self._loop_ids = {}
+            if id(node) in self._loop_ids:
+                idx = self._loop_ids[id(node)]
+            else:
+                idx = self._loop_ids[id(node)] = len(self._loop_ids)
+            self.loop_counter = max(self.loop_counter, idx + 1)
+        else:
+            idx = self.loop_counter
+            self.loop_counter += 1
         spec = self.c.get("loops", {}).get(idx)
         if spec is None:
             raise Unsupported(f"loop #{idx} has no invariant in the contract")
@@ -1656,9 +1666,34 @@ class Engine:
     def s_For(self, s, st):
         if s.orelse:
             raise Unsupported("for/else")
-        idx, spec = self.loop_spec()
+        idx, spec = self.loop_spec(s)
         it = self.eval(s.iter, st)
         cname = spec.get("counter", f"it{idx}")
+        if spec.get("unroll"):
+            # a loop over a sequence whose length is a literal constant: executed iteration by iteration (complete, no invariant)
+            if isinstance(it, VTuple):
+                items = list(it.items)
+            elif isinstance(it, VSeq) and is_const_int(z3.simplify(it.ln)) and z3.simplify(it.ln).as_long() <= 32:
+                items = [wrap(z3.simplify(z3.Select(it.arr, j))) if it.ek != "str" else VStr(z3.simplify(z3.Select(it.arr, j)))
+                         for j in range(z3.simplify(it.ln).as_long())]
+            else:
+                raise Unsupported("unroll needs an iterable of literal length")
+            states = [st]
+            for item in items:
+                nxt = []
+                for s0 in states:
+                    self.assign_target(s.target, item, s0)
+                    for s2, sig in self.exec_block(s.body, s0):
+                        if sig is None or sig == ("continue",):
+                            nxt.append(s2)
+                        elif sig == ("break",):
+                            raise Unsupported("break")
+                        else:
+                            yield s2, sig
+                states = nxt
+            for s0 in states:
+                yield s0, None
+            return
         # iteration count and per-iteration binding
         if isinstance(it, VRange):
             n = z3.simplify(z3.If(it.hi > it.lo, it.hi - it.lo, 0))
@@ -1755,7 +1790,7 @@ class Engine:
     def s_While(self, s, st):
         if s.orelse:
             raise Unsupported("while/else")
-        idx, spec = self.loop_spec()
+        idx, spec = self.loop_spec(s)
         entry = st.fork()
         entry._old = getattr(st, "_old", None)
         self.check_invs(st, spec, idx, "init", None, None, entry)
